@@ -48,7 +48,12 @@ var c13MePool = [2]string{"me", "me2"}
 var c13OtherPool = [3]string{"a", "b", "c"}
 
 // every nick name that can ever appear (the oracle queries all of them).
-var c13AllNicks = []string{"me", "me2", "a", "b", "c", "Me", "A", "B", "a2", "b2"}
+var c13AllNicks = []string{"me", "me2", "a", "b", "c", "Me", "A", "B", "a2", "b2",
+	"[a]", "[A]", "_a2", "|b|", "|B|", "`b2", "a]", "A]", "b|", "B|"}
+
+// c13SpecialNames: the same for style SpecialNicks: nick names that begin with (and contain) the special
+// characters a nick may consist of besides letters and digits
+var c13SpecialNames = [c13NUsers][3]string{{"me", "Me", "me"}, {"[a]", "[A]", "_a2"}, {"|b|", "|B|", "`b2"}}
 
 // spellings of the users' own names (style CaseNicks): index 0 -> 1 is a rename that only changes the letter case
 var c13CaseNames = [c13NUsers][3]string{{"me", "Me", "me"}, {"a", "A", "a2"}, {"b", "B", "b2"}}
@@ -71,14 +76,16 @@ type c13StyleT struct {
 	KeyOff             string            // the argument of "-k": "" = the key itself, otherwise e.g. "*" (servers of the hybrid family hide it)
 	Flags324           string            // channel flags every channel of this network has, reported in the 324 reply
 	Chans              [c13NChans]string // "" = #x, #y
+	SpecialNicks       bool              // with CaseNicks: the names of c13SpecialNames
+	V6Hosts            bool              // the other users' hosts are IPv6 addresses (colons inside a middle parameter of the WHO reply)
 	CaseNicks          bool              // users rename between spellings of their own name (a / A / a2) instead of sharing a pool
 }
 
 var c13Styles = []c13StyleT{
 	{Name: "default", PartMsg: " :bye", KickMsg: " :out", QuitMsg: " :gone", NickColon: true, Hi: 'o', Lo: 'v', HiPfx: "@", LoPfx: "+", Topics: c13Topics},
-	{Name: "terse-halfop", PartMsg: "", KickMsg: "", QuitMsg: "", NickColon: false, JoinCol: true, Hi: 'o', Lo: 'h', HiPfx: "@", LoPfx: "%", Topics: [3]string{"", "t one ", " t two"}, Flags324: "ps", CaseNicks: true, Chans: [c13NChans]string{"#X", "&Yy"}},
+	{Name: "terse-halfop", PartMsg: "", KickMsg: "", QuitMsg: "", NickColon: false, JoinCol: true, Hi: 'o', Lo: 'h', HiPfx: "@", LoPfx: "%", Topics: [3]string{"", "t one ", " t two"}, Flags324: "psZ", CaseNicks: true, Chans: [c13NChans]string{"#X", "&Yy"}},
 	{Name: "empty-reasons-admin", PartMsg: " :", KickMsg: " :", QuitMsg: " :", NickColon: true, Hi: 'a', Lo: 'v', HiPfx: "&", LoPfx: "+", Topics: [3]string{"", ":", "t  two :x"}, Flags324: "timrzZO", KeyOff: "x"},
-	{Name: "owner-halfop", PartMsg: " :see you later", KickMsg: " :a b c", QuitMsg: " :Quit: leaving", NickColon: true, JoinCol: true, Hi: 'q', Lo: 'h', HiPfx: "~", LoPfx: "%", Topics: c13Topics, Flags324: "sp", KeyOff: "*", CaseNicks: true, Chans: [c13NChans]string{"#Go", "+y"}},
+	{Name: "owner-halfop", PartMsg: " :see you later", KickMsg: " :a b c", QuitMsg: " :Quit: leaving", NickColon: true, JoinCol: true, Hi: 'q', Lo: 'h', HiPfx: "~", LoPfx: "%", Topics: c13Topics, Flags324: "spO", KeyOff: "*", CaseNicks: true, SpecialNicks: true, V6Hosts: true, Chans: [c13NChans]string{"#Go", "+y"}},
 }
 
 // c13Style is the style of the session being run (one session at a time per worker process).
@@ -114,6 +121,9 @@ func newIrcNet() *ircNet { return &ircNet{Name: [c13NUsers]uint8{0, 0, 1}} }
 
 func (n *ircNet) Nick(u int) string {
 	if c13Style.CaseNicks {
+		if c13Style.SpecialNicks {
+			return c13SpecialNames[u][n.Name[u]]
+		}
 		return c13CaseNames[u][n.Name[u]]
 	}
 	if u == 0 {
@@ -128,10 +138,17 @@ func (n *ircNet) src(u int) string {
 
 // host is user u's host name under the given cloak mask.
 func (n *ircNet) host(u int, mask uint8) string {
-	if mask&(1<<u) != 0 {
-		return "cloaked." + c13Users[u].Host
+	h := c13Users[u].Host
+	if c13Style.V6Hosts && u > 0 {
+		h = fmt.Sprintf("2001:db8::%d", 40+u)
 	}
-	return c13Users[u].Host
+	if mask&(1<<u) != 0 {
+		if c13Style.V6Hosts && u > 0 {
+			return h + ":c10a"
+		}
+		return "cloaked." + h
+	}
+	return h
 }
 
 // userByNick returns the user currently using nick, or -1.
